@@ -323,6 +323,11 @@ def check_rollback(ctx, r):
     try:
         for s in sites:
             c04.check_site(ctx, r, s)
+        # the restore itself must put every binding back ("a rejected tree binds nothing")
+        from . import c05
+
+        stack_tl, stack_attr, _ = c05.locate_stack(r)
+        c05._check_set(ctx, r, r.set, stack_tl, stack_attr, "C08.6")
     finally:
         for f in ctx.findings[n0:]:
             f.rule = "C08.6"
